@@ -87,9 +87,34 @@ func hasPrefix(h helper) bool {
 
 // ---------------------------------------------------------------- the real writer
 
+// writeEnvs are the writer situations a helper is exercised in: a fresh buffer, a pre-sized one
+// (stream.NewByteBuffer(n): n zero bytes, written from position 0) and a section of an already written
+// buffer that is rewritten in place.  In all of them the helper has to write its encoding at the current
+// position, leave the position right behind it and touch nothing else.
+const writeEnvs = 3
+
 // streamWrite writes v with the real stream.Write* helper into a stream.ByteBuffer.
-func streamWrite(h helper, v any, signed bool) ([]byte, error) {
+func streamWrite(h helper, v any, signed bool) ([]byte, error) { return streamWriteEnv(h, v, signed, 0, 0) }
+
+// streamWriteEnv does so in writer situation env; hint is the expected length of the encoding.  It returns
+// the bytes between the position before and the position after the write.
+func streamWriteEnv(h helper, v any, signed bool, env, hint int) ([]byte, error) {
 	w := stream.NewByteBuffer()
+	start := 0
+	switch env {
+	case 1:
+		w = stream.NewByteBuffer(hint + 3)
+	case 2:
+		start = 2
+		if _, err := w.Write(append([]byte{0xa1, 0xa2}, bytes.Repeat([]byte{0xcc}, hint+3)...)); err != nil {
+			return nil, err
+		}
+		if _, err := w.Seek(int64(start), io.SeekStart); err != nil {
+			return nil, err
+		}
+	}
+	before, _ := w.Bytes()
+	before = append([]byte{}, before...)
 	var err error
 	switch h.H {
 	case "Num":
@@ -161,7 +186,33 @@ func streamWrite(h helper, v any, signed bool) ([]byte, error) {
 		return nil, err
 	}
 	b, _ := w.Bytes()
-	return append([]byte{}, b...), nil
+	if env == 0 {
+		return append([]byte{}, b...), nil
+	}
+	end64, err := stream.Offset(w)
+	if err != nil {
+		return nil, err
+	}
+	end := int(end64)
+	if end < start || end > len(b) {
+		return nil, fmt.Errorf("harness: writer position %d outside the buffer [%d,%d]", end, start, len(b))
+	}
+	res := append([]byte{}, b[start:end]...)
+	// nothing outside [start,end) may have changed, and the next write continues at end
+	wantLen := len(before)
+	if end > wantLen {
+		wantLen = end
+	}
+	if len(b) != wantLen || !bytes.Equal(b[:start], before[:start]) || (end < len(before) && !bytes.Equal(b[end:], before[end:])) {
+		return append(res, 0xfd), nil // reported as a layout difference
+	}
+	if err := stream.Write(w, uint8(0xee)); err != nil {
+		return nil, err
+	}
+	if b2, _ := w.Bytes(); len(b2) <= end || b2[end] != 0xee {
+		return append(res, 0xfe), nil
+	}
+	return res, nil
 }
 
 // ---------------------------------------------------------------- the real reader
@@ -443,6 +494,7 @@ type streamCase struct {
 	Input  []int  `json:"input"`
 	Reader string `json:"reader"`
 	Chunks []int  `json:"chunks,omitempty"`
+	Env    int    `json:"env,omitempty"`
 	Want   any    `json:"want"`
 }
 
@@ -496,19 +548,22 @@ func cmdStreamTable(args []string) int {
 			if signed && (h.H != "Num" || h.A == 32) {
 				continue
 			}
-			// the real writer must produce the model's bytes
-			var wb []byte
-			var werr error
-			o := guarded(false, false, func() { wb, werr = streamWrite(h, m["v"], signed) })
-			rep.Calls++
-			c := streamCase{H: h, Signed: signed, V: m["v"], Input: fromBytes(model), Reader: "writer", Want: want}
-			switch {
-			case o.panicked:
-				rep.bad(h.reader()+":writer-panics", fmt.Sprintf("writer of %s panicked on %s: %s", h, canon(m["v"]), o.pmsg), c)
-			case werr != nil:
-				rep.bad(h.reader()+":write-fails", fmt.Sprintf("writer of %s refused %s: %v", h, canon(m["v"]), werr), c)
-			case !bytes.Equal(wb, model):
-				rep.bad(h.reader()+":bytes-differ-from-model", fmt.Sprintf("writer of %s wrote %v for %s, the model's layout is %v", h, wb, canon(m["v"]), model), c)
+			// the real writer must produce the model's bytes, in every writer situation
+			for env := 0; env < writeEnvs; env++ {
+				var wb []byte
+				var werr error
+				o := guarded(false, false, func() { wb, werr = streamWriteEnv(h, m["v"], signed, env, len(model)) })
+				rep.Calls++
+				c := streamCase{H: h, Signed: signed, V: m["v"], Input: fromBytes(model), Reader: "writer", Env: env, Want: want}
+				sit := [writeEnvs]string{"a fresh buffer", "a pre-sized buffer", "a rewritten section of a buffer"}[env]
+				switch {
+				case o.panicked:
+					rep.bad(h.reader()+":writer-panics", fmt.Sprintf("writer of %s panicked on %s in %s: %s", h, canon(m["v"]), sit, o.pmsg), c)
+				case werr != nil:
+					rep.bad(h.reader()+":write-fails", fmt.Sprintf("writer of %s refused %s in %s: %v", h, canon(m["v"]), sit, werr), c)
+				case !bytes.Equal(wb, model):
+					rep.bad(h.reader()+":bytes-differ-from-model", fmt.Sprintf("writer of %s wrote %v for %s between its start and end position in %s (0xfd/0xfe: bytes outside changed / next write misplaced), the model's layout is %v", h, wb, canon(m["v"]), sit, model), c)
+				}
 			}
 			// the real reader must return the value from every splitting of the model's bytes
 			for _, tail := range tails {
@@ -734,6 +789,13 @@ func cmdStreamRecords(args []string) int {
 			s.emit(streamRec{K: "rt", H: h, Signed: signed, V: v, W: []int{}, Tail: []int{}, S: []int{}, Chunks: []int{}, Got: got{V: []int{}, Panic: o.pmsg}, Werr: fmt.Sprint(werr)})
 			continue
 		}
+		if env := i % writeEnvs; env != 0 { // the same write into a pre-sized / rewritten buffer: the record carries its bytes
+			o := guarded(false, false, func() { wb, werr = streamWriteEnv(h, jsonRound(v), signed, env, len(wb)) })
+			if o.panicked || werr != nil {
+				s.emit(streamRec{K: "rt", H: h, Signed: signed, V: v, W: []int{}, Tail: []int{}, S: []int{}, Chunks: []int{}, Got: got{V: []int{}, Panic: o.pmsg}, Werr: fmt.Sprint(werr)})
+				continue
+			}
+		}
 		if i%3 != 2 {
 			tail := toBytes(jsonRound(randBytes(r, r.Intn(4))))
 			data := append(append([]byte{}, wb...), tail...)
@@ -808,6 +870,8 @@ func cmdStreamOne(args []string) int {
 		Input  []int `json:"input"`
 		Reader string
 		Chunks []int `json:"chunks"`
+		Env    int   `json:"env"`
+		V      any   `json:"v"`
 		Want   any   `json:"want"`
 	}
 	if err := json.Unmarshal(b, &c); err != nil {
@@ -816,6 +880,18 @@ func cmdStreamOne(args []string) int {
 	}
 	h := parseHelper(c.H)
 	data := toBytes(jsonRound(c.Input))
+	if c.Reader == "writer" {
+		var wb []byte
+		var werr error
+		o := guarded(false, false, func() { wb, werr = streamWriteEnv(h, c.V, c.Signed, c.Env, len(data)) })
+		fmt.Printf("writer of %s on %s in writer situation %d: bytes=%v err=%v panic=%q; the model's layout is %v\n", h, canon(c.V), c.Env, wb, werr, o.pmsg, data)
+		if o.panicked || werr != nil || !bytes.Equal(wb, data) {
+			fmt.Println("still disagrees with the model")
+			return 1
+		}
+		fmt.Println("conforms to the model")
+		return 0
+	}
 	if c.Chunks == nil {
 		c.Chunks = []int{len(data)}
 	}
